@@ -14,8 +14,26 @@ var registry = map[string]*Prop{}
 
 func register(id string, run func(c *rep.Ctx)) { registry[id] = &Prop{ID: id, Run: run} }
 
+var extras = map[string][]func(c *rep.Ctx){}
+
+// extend adds rules to a property implemented in another file (used for the
+// rules added after the seeded-change rounds).
+func extend(id string, run func(c *rep.Ctx)) { extras[id] = append(extras[id], run) }
+
 // Get returns the implementation of a property or nil.
-func Get(id string) *Prop { return registry[id] }
+func Get(id string) *Prop {
+	p := registry[id]
+	if p == nil {
+		return nil
+	}
+	base := p.Run
+	return &Prop{ID: id, Run: func(c *rep.Ctx) {
+		base(c)
+		for _, x := range extras[id] {
+			x(c)
+		}
+	}}
+}
 
 // IDs lists the implemented properties.
 func IDs() []string {
